@@ -33,6 +33,32 @@ T: Dict[str, Tuple[dict, dict, str]] = {
     "common_tail": ({"n": "int"}, {"acc": "int"}, "if n % 2 == {p} % 2:\n    acc = 1\n    print('tail')\nelse:\n    acc = 2\n    print('tail')\n"),
     "common_tail_in_def": ({"n": "int"}, {"acc": "int"},
                            "def branchy(v):\n    if v > {p}:\n        print('big')\n        print('tail')\n    else:\n        print('small')\n        print('tail')\nbranchy(n)\nacc = n\n"),
+    "kwonly_camel": ({"xs": "list"}, {"out": "list"},
+                     "def scale_all(values, *, scale_factor=2):\n    scaleFactor = scale_factor * {p}\n    return [v * scaleFactor + scale_factor for v in values]\nout = scale_all(xs)\n"),
+    "varargs_camel": ({"s": "str"}, {"s": "str"},
+                      "def join_all(*name_parts, **extra_opts):\n    nameParts = [part.upper() for part in name_parts]\n    extraOpts = sorted(extra_opts)\n"
+                      "    return '-'.join(nameParts) + '/' + '-'.join(name_parts) + '/' + ','.join(extraOpts) + str(len(extra_opts) + {p})\ns = join_all(s, 'cd', zeta=1, alpha=2)\n"),
+    "posonly_camel": ({"n": "int"}, {"acc": "int"},
+                      "def mix(base_value, /, step_size={p}):\n    baseValue = base_value + 100\n    stepSize = step_size * 2\n    return baseValue * stepSize + base_value - step_size\nacc = mix(n)\n"),
+    "dict_literal_assign_dup": ({}, {"d": "dict"}, "d = {{'a': 1, 'b': 2}}\nd['a'] = {p} + 10\nd['c'] = 3\n"),
+    "dict_update_dup": ({}, {"d": "dict"}, "d = {{'a': 1, 'k': 5}}\nd.update({{'a': {p} + 20, 'z': 0}})\n"),
+    "dict_dup_key_literal": ({}, {"d": "dict"}, "d = {{'a': 1, 'b': 2, 'a': {p} + 30}}\n"),
+    "set_star_dup": ({"n": "int"}, {"out": "list"}, "out = [*{{n, n}}, {p}]\n"),
+    "guarded_chain_comp": ({"xs": "list"}, {"out": "list"},
+                           "out = [x for x in [x for x in xs if x != 1] if 12 % (x - 1) == {p} % 2]\n"),
+    "default_if_chain_return": ({"n": "int"}, {"s": "str"},
+                                "def label(v):\n    x = 'small'\n    if v > 7:\n        x = 'big'\n    elif v > {p} + 4:\n        x = 'mid'\n    return x\ns = label(n) + label(9) + label(6)\n"),
+    "sorted_key": ({"xs": "list"}, {"out": "list"}, "out = sorted(list(xs), key=lambda v: -v)[:{p}]\n"),
+    "range_le_stop": ({}, {"out": "list"}, "out = [i for i in range(6) if i <= 8 - {p}]\n"),
+    "for_else_break": ({"xs": "list"}, {"acc": "int"}, "for x in xs:\n    if x == {p} + 5:\n        acc = x\n        break\nelse:\n    acc = -1\n"),
+    "if_assign_default": ({"n": "int"}, {"acc": "int"}, "acc = 0\nif n > {p}:\n    acc = 1\n"),
+    "closure_counter": ({"n": "int"}, {"acc": "int"},
+                        "def make(step):\n    total = 0\n    def bump():\n        nonlocal total\n        total += step\n        return total\n    return bump\nb = make({p})\nb()\nacc = b() + n\n"),
+    "str_build_loop": ({"xs": "list"}, {"s": "str"}, "s = ''\nfor x in xs:\n    s += str(x * {p})\n"),
+    "any_all": ({"xs": "list"}, {"flag": "bool"}, "flag = any([x > {p} for x in xs]) and all([x > 0 for x in xs])\n"),
+    "len_compare": ({"xs": "list"}, {"flag": "bool"}, "flag = len(xs) > 0 and len(out) == 0 or len(xs) == {p}\n"),
+    "nested_if_same_tail": ({"n": "int"}, {"acc": "int"},
+                            "def cls(v):\n    if v > {p}:\n        if v > 4:\n            r = 3\n        else:\n            r = 2\n        print('in')\n    else:\n        r = 1\n        print('in')\n    return r\nacc = cls(n) + cls(1)\n"),
     "early_continue": ({"xs": "list"}, {"acc": "int"},
                        "for x in xs:\n    if x > {p}:\n        acc += x\n        acc += 1\n        print(acc)\n"),
     "while_count": ({"n": "int"}, {"acc": "int"}, "k = 0\nwhile k < n:\n    k += {p}\nacc = k\n"),
